@@ -1448,6 +1448,15 @@ def r54(ctx, repo, m):
         # pixel-size scale has the dimension of the abscissa
         cf = repo.func(PX, fn)
         p = [x.arg for x in cf.args.args]
+        mut = sorted(inplace_params(cf))
+        ctx.ob("R5.4", not mut,
+               f"{fn} does not modify its arguments" if not mut else
+               f"{fn} modifies its argument `{mut[0]}` in place: the "
+               "abscissa that get_emodulus hands over (its private copy, or "
+               "the caller's array with copy=False) is rescaled before the "
+               "interpolation", node=cf, label=f"{fn} arguments untouched")
+        if mut:
+            continue
         sc = [n for n in walk(cf) if isinstance(n, ast.Assign)
               and isinstance(n.targets[0], ast.Name)
               and "px_um" in names_in(n.value)]
@@ -2949,6 +2958,52 @@ def r59(ctx, repo):
                f"[{short(c, 30)}] complete")
 
 
+AFEM = "dclab/rtdc_dataset/feat_anc_core/af_emodulus.py"
+
+
+def r59_model_default(ctx, repo):
+    """every fallback for a missing 'emodulus viscosity model' names the
+    same model (defaults of .get(), the deprecation message, the default of
+    get_emodulus)"""
+    KEY = "emodulus viscosity model"
+    sites = []
+    tree = repo.tree(AFEM)
+    for n in ast.walk(tree):
+        if isinstance(n, ast.Call) and last_attr(n) == "get" and n.args \
+                and const_str(n.args[0]) == KEY:
+            d = n.args[1] if len(n.args) > 1 else kwarg(n, "default")
+            sites.append((n, const_str(d) if d is not None else None,
+                          f"`{short(n, 40)}`"))
+    for w in find_calls(tree, name="warnings.warn", nested=True):
+        msg = " ".join(const_str(a) or "" for a in ast.walk(w)
+                       if isinstance(a, ast.Constant))
+        mm = re.search(r"[Ff]alling\s+back to '([^']+)'", " ".join(
+            msg.split()))
+        if mm and KEY in msg:
+            sites.append((w, mm.group(1), "the deprecation message"))
+    ge = repo.func(EM, "get_emodulus")
+    dv = dict(zip(reversed([a.arg for a in ge.args.args]),
+                  reversed(ge.args.defaults))).get("visc_model")
+    if const_str(dv):
+        sites.append((ge, const_str(dv), "the default of get_emodulus"))
+    if len(sites) < 2:
+        raise AnalysisError("fallbacks of the viscosity model not found")
+
+    def canon(v):
+        return v[:-len("-fallback")] if v and v.endswith("-fallback") else v
+    vals = sorted({canon(v) for _, v, _ in sites if v is not None})
+    none = [w for _, v, w in sites if v is None]
+    ok = len(vals) == 1 and not none
+    ctx.ob("R5.9", ok,
+           f"every fallback for a missing '{KEY}' is '{vals[0]}' "
+           f"({len(sites)} sites)" if ok else
+           "the fallbacks for a missing viscosity model disagree: "
+           + "; ".join(f"{w}: {v!r}" for _, v, w in sites)
+           + " – the same dataset gets different moduli depending on the "
+           "code path", node=sites[0][0],
+           key=f"{AFEM}::viscosity model fallback::sites agree")
+
+
 def run(ctx):
     repo = ctx.repo
     ctx.rule("R5.1", "every in-place operation of get_emodulus acts on a "
@@ -2962,7 +3017,8 @@ def run(ctx):
              "the global route's LUT scaling", minimum=6)
     ctx.rule("R5.4", "pixelation offset subtracted before scaling from the "
              "unscaled abscissa; sign-symmetric dispatch; pixel scale has "
-             "the dimension of the abscissa", minimum=16)
+             "the dimension of the abscissa; arguments untouched",
+             minimum=18)
     ctx.rule("R5.5", "griddata linear, no fill_value/rescale, consistent "
              "normalisation by the scaled column maximum, extrapolation "
              "off by default", minimum=16)
@@ -2981,8 +3037,8 @@ def run(ctx):
              "the dispatch", minimum=7)
     ctx.rule("R5.9", "every internal call of the viscosity functions "
              "passes on all physical parameters (medium, channel width, "
-             "flow rate, temperature) that caller and callee share",
-             minimum=8)
+             "flow rate, temperature) that caller and callee share; the "
+             "viscosity-model fallbacks agree", minimum=9)
     m = Model(repo)
     r51(ctx, repo, m)
     r56(ctx, repo)
@@ -2991,6 +3047,7 @@ def run(ctx):
     r57(ctx, repo)
     r58(ctx, repo)
     r59(ctx, repo)
+    r59_model_default(ctx, repo)
     r52(ctx, repo)
     x4 = r53(ctx, repo, m)
     r54(ctx, repo, m)
@@ -3120,6 +3177,18 @@ MUTANTS = [
     ("registered identifiers not looked up", LOAD,
      ("    elif path_or_id in EXTERNAL_LUTS:\n"
       "        lut_path = EXTERNAL_LUTS[path_or_id]\n", ""), "R5.6"),
+    ("volume rescaled in place by the pixelation correction "
+     "(seeded C05_16)", PX,
+     [("    pxscalev = (.34 / px_um)**3\n",
+       "    volume *= (.34 / px_um)**3\n"),
+      ("np.exp(-volume * pxscalev / 40)", "np.exp(-volume / 40)"),
+      ("np.exp(-volume * pxscalev / 450)", "np.exp(-volume / 450)"),
+      ("np.exp(-volume * pxscalev / 6040)", "np.exp(-volume / 6040)")],
+     "R5.4"),
+    ("viscosity-model fallback differs at one site (seeded C05_17)", AFEM,
+     ('calccfg.get("emodulus viscosity model", "herold-2017")',
+      'calccfg.get("emodulus viscosity model", "buyukurganci-2022")'),
+     "R5.9"),
     ("scale functions invert the inplace flag", SCALE,
      ("    copy = not inplace\n    if issubclass(area_um.dtype.type",
       "    copy = inplace\n    if issubclass(area_um.dtype.type"), "R5.1"),
